@@ -99,10 +99,8 @@ ASSUMPTIONS = [
     'with the value the reader gives under its first reading)',
 ]
 
-KF_LINE_BLANK = 'KF-C09-6'
-KF_AFTER_NAME = 'KF-C09-7'
-
-_DEFECT_FLAGS = [('kf6', KF_LINE_BLANK), ('kf7', KF_AFTER_NAME)]
+# No finding of this property is "known": KF-C09-1 ... KF-C09-7 are repaired in /repo, so there is no defect model
+# in this module - every mismatch is a violation (replays/C09/regress-kf*.json pin the repaired cases).
 
 
 # =====================================================================================================================
@@ -134,9 +132,9 @@ def _leftover(text, end, target_end):
     return None
 
 
-def _variants(target_text, defect: bool):
+def _variants(target_text):
     present = sorted(set(c for c in target_text if c in ref.UNICODE_WS))
-    if defect or not present:
+    if not present:
         subsets = ['']
     elif len(present) <= 3:
         subsets = [''.join(s) for n in range(len(present) + 1) for s in itertools.combinations(present, n)]
@@ -167,14 +165,12 @@ def _observable(host, oc, ctx):
     return oc
 
 
-def _outcomes(host, rd, symbols, ctx, **defects):
+def _outcomes(host, rd, symbols, ctx):
     """-> {predicted outcome (JSON string): [reading...]} over the open readings."""
     text, pos, target_end = rd['text'], rd['arg_pos'], rd['target_end']
     out = {}
-    for var in _variants(rd['target'], bool(defects)):
-        modes = dict(var)
-        modes.update(defects)
-        oc, end = ref.read_host(host, text, pos, symbols, **modes)
+    for var in _variants(rd['target']):
+        oc, end = ref.read_host(host, text, pos, symbols, **var)
         if oc[0] == 'syntax':
             oc = ['syntax', _PHASE.get(host, 'setup'), None if host == 'act' else rd['location']]
         elif oc[0] != 'unsupported':
@@ -361,7 +357,7 @@ def check_cli(case) -> Verdict:
         ctx = {'exp': ''}
         if host == 'equals':
             # the expected text = the value under the first reading that gives one
-            for var in _variants(rd['target'], False):
+            for var in _variants(rd['target']):
                 oc, _ = ref.read_host(host, rd['text'], rd['arg_pos'], symbols, **var)
                 if oc[0] == 'str':
                     ctx['exp'] = oc[1]
@@ -396,17 +392,6 @@ def check_cli(case) -> Verdict:
     if doc_kinds & {'illformed', 'unsupported'}:
         # one of the white-space readings leads outside the part of the syntax that the reader models
         return Verdict(True, nontrivial=False, labels=labels + ['skipped:open-under-a-reading'])
-    # ---- mismatch: is it exactly what a listed defect predicts? -------------------------------------------
-    for n in range(1, len(_DEFECT_FLAGS) + 1):
-        for combo in itertools.combinations(_DEFECT_FLAGS, n):
-            flags = {name: True for name, _ in combo}
-            pred = _outcomes(host, rd, symbols, ctx, **flags)
-            if actual_s in pred and actual[0] not in ('illformed', 'unsupported'):
-                kf = combo[0][1]
-                return Verdict(ok=False, known=kf, bucket='cli/' + kf,
-                               detail=detail('matches defect model ' + '+'.join(k for _, k in combo)),
-                               labels=labels + ['verdict:' + '+'.join(k for _, k in combo)],
-                               nontrivial=nontrivial, key=key)
     exp_kind = '+'.join(sorted(doc_kinds))
     what = 'value differs'
     if actual[0] == 'syntax' and 'syntax' in doc_kinds:
@@ -471,16 +456,12 @@ def _run_token_stream(src, ops):
     return log
 
 
-def _explain(src, log, kf6=False):
-    """First disagreement between the log and the reference tokenizer (None = consistent).
-
-    kf6  defect model KF-C09-6: "the rest of the line is blank" is decided with str.isspace(); when such a rest of a
-         line that contains a token is consumed line-wise, the look-ahead token stays what it was
-    """
+def _explain(src, log):
+    """First disagreement between the log and the reference tokenizer (None = consistent)."""
     n = len(src)
     prev = None
     cur_tok = None  # the reference token that is the expected head
-    line_ws = ref.ALL_WS if kf6 else ref.ASCII_WS
+    line_ws = ref.ASCII_WS
     for i, rec in enumerate(log):
         if 'exception' in rec:
             return {'step': i, 'what': 'exception', 'observed': rec['exception']}
@@ -515,9 +496,6 @@ def _explain(src, log, kf6=False):
                 return {'step': i, 'what': 'text of the rest of the line', 'observed': rec['ret'],
                         'expected': rest}
             lo = hi = le if op == 'rest_of_line' else min(n, le + 1)
-            if kf6 and (prev['pos'] == n or (le < n and rest.strip(ref.ALL_WS) == '')):
-                # the implementation re-positions its lexer only when the consumed text is not str.isspace()
-                inherit = True
         if not (lo <= pos <= hi):
             return {'step': i, 'what': 'position', 'observed': pos, 'expected': [lo, hi]}
         # ---- the head -------------------------------------------------------------------------------------
@@ -596,13 +574,6 @@ def check_tok(case) -> Verdict:
     why = _explain(src, log)
     if why is None:
         return Verdict(True, nontrivial=nontrivial, key=key, labels=labels + ['verdict:ok'])
-    if uws and _explain(src, log, kf6=True) is None:
-        kf = KF_LINE_BLANK
-        return Verdict(ok=False, known=kf, bucket='tok/' + kf,
-                       detail={'source': src, 'ops': ops, 'matches_defect_model': kf,
-                               'first_difference_to_documented_syntax': why,
-                               'log': log[:why['step'] + 1][-2:]},
-                       labels=labels + ['verdict:' + kf], nontrivial=nontrivial, key=key)
     return fail('tok/%s' % why['what'].split(' [')[0], {'source': src, 'ops': ops, 'difference': why, 'log': log},
                 labels=labels + ['verdict:violation'], nontrivial=nontrivial, key=key)
 
@@ -696,14 +667,13 @@ EXAMPLES = [
     {'name': 'KF-C09-6: last list element that consists of a NO-BREAK SPACE, after an element that contains one',
      'observe': 'probe',
      'text': '[setup]\ndef list X = a' + _NB + 'b ' + _NB + '\n' + _EX_PROBE + ' @[X]@\n[act]\n$ true\n',
-     'expect': [['list', ['a' + _NB + 'b', _NB]], ['list', ['a', 'b']]],
-     'defect': [KF_LINE_BLANK, ['list', ['a' + _NB + 'b']]]},
+     'expect': [['list', ['a' + _NB + 'b', _NB]], ['list', ['a', 'b']]]},
     {'name': 'KF-C09-6: a superfluous argument that consists of a NO-BREAK SPACE is not reported', 'observe': 'file',
      'text': '[setup]\nfile o = a' + _NB + 'b ' + _NB + '\n[act]\n$ true\n',
-     'expect': [['syntax', 'setup', [['t.case', 2]]]], 'defect': [KF_LINE_BLANK, ['str', 'a' + _NB + 'b']]},
+     'expect': [['syntax', 'setup', [['t.case', 2]]]]},
     {'name': 'KF-C09-7: NO-BREAK SPACE at both ends of the first argument of an instruction', 'observe': 'fname',
      'text': '[setup]\nfile ' + _NB + 'a' + _NB + '\n[act]\n$ true\n',
-     'expect': [['name', _NB + 'a' + _NB], ['name', 'a']], 'defect': [KF_AFTER_NAME, ['name', 'a' + _NB]]},
+     'expect': [['name', _NB + 'a' + _NB], ['name', 'a']]},
 ]
 
 
@@ -722,9 +692,6 @@ def check_example(case) -> Verdict:
         return Verdict(True, nontrivial=True, key=case['name'], labels=labels + ['verdict:ok'])
     d = {'example': case['name'], 'case_text': case['text'], 'expected_any_of': case['expect'], 'observed': actual,
          'stderr': stderr_head}
-    if case.get('defect') and actual == case['defect'][1]:
-        return Verdict(ok=False, known=case['defect'][0], bucket='example/' + case['defect'][0], detail=d,
-                       labels=labels + ['verdict:' + case['defect'][0]], nontrivial=True, key=case['name'])
     return fail('example/' + case['name'].split(':')[0], d, labels=labels, nontrivial=True, key=case['name'])
 
 
